@@ -175,6 +175,39 @@ fn case_set_doy_offset(from_day: i64, nod: u64, off: i32, n: u32, acc: &mut Acc)
     }
 }
 
+/// the getters and the derived format fields of a day, asked right after the same questions about
+/// another day on the same thread: the answers must not depend on what was asked before
+fn case_after(pred: i64, day: i64, use_dt: bool, acc: &mut Acc) {
+    if !(cal::MIN_DAY..=cal::MAX_DAY).contains(&pred) {
+        return;
+    }
+    let ask = |d: i64| -> Out<(u8, u32, String)> {
+        let ts = (d - cal::DAYS_TO_1970) * 86_400;
+        if use_dt {
+            call(|| {
+                let v = DateTime::from_timestamp(ts);
+                (v.weekday(), v.day_of_year(), v.format("w q e D"))
+            })
+        } else {
+            call(|| {
+                let v = Date::from_timestamp(ts);
+                (v.weekday(), v.day_of_year(), v.format("w q e D"))
+            })
+        }
+    };
+    acc.transitions += 2;
+    acc.states += 1;
+    let _ = ask(pred);
+    let got = ask(day);
+    let w = Walker::at(day);
+    let want = (w.wd as u8, w.doy, format!("{} {} {} {}", cal::iso_week(day), (w.m - 1) / 3 + 1, w.wd + 1, w.doy));
+    if got == Out::Val(want.clone()) {
+        acc.branch("asked-after-another-day");
+    } else {
+        acc.violation(if use_dt { "DateTime getters" } else { "Date getters" }, "answer-depends-on-the-previous-call", json!({"kind": "after", "day": day, "pred": pred, "datetime": use_dt}), format!("{:?}", want), got.show());
+    }
+}
+
 fn sweep_getters(rep: &mut Report, name: &str, lo: i64, hi: i64, use_dt: bool) {
     rep.sweep_chunked(name, (hi - lo + 1) as u64, "weekday()/day_of_year() against the walker", |a, b, acc| {
         let mut w = Walker::at(lo + a as i64);
@@ -261,6 +294,13 @@ pub fn run(ctx: &Ctx) -> i32 {
         sweep_format(&mut rep, &format!("format:window{}:Date", k), lo, hi, false, true);
         sweep_format(&mut rep, &format!("format:window{}:DateTime", k), lo, hi, true, checked);
     }
+    let hdays: Vec<i64> = ab::days_b().into_iter().chain([0, 1, 730_179, 719_162, 719_468, 146_097, -146_097]).collect();
+    let dist = ab::dist_b();
+    let (nh, ndist) = (hdays.len() as u64, dist.len() as u64);
+    rep.sweep("history independence: landmark days right after a day at a DIST_B distance x {Date, DateTime}", nh * ndist * 2, "weekday(), day_of_year(), format(\"w q e D\")", |i, acc| {
+        let d = hdays[(i / 2 % nh) as usize];
+        case_after(d + dist[(i / (2 * nh)) as usize], d, i % 2 == 1, acc);
+    });
     let db = ab::days_b();
     rep.sweep("format:DAYS_B", db.len() as u64 * 2, "landmark days, Date and DateTime", |i, acc| {
         let w = Walker::at(db[(i / 2) as usize]);
@@ -310,6 +350,7 @@ fn landmark_astro_years() -> Vec<(i64, i64)> {
 pub fn replay(_op: &str, case: &Value, acc: &mut Acc) -> bool {
     let use_dt = case["datetime"].as_bool().unwrap_or(false);
     match case["kind"].as_str() {
+        Some("after") => case_after(case["pred"].as_i64().unwrap(), case["day"].as_i64().unwrap(), use_dt, acc),
         Some("getters") => case_getters(&Walker::at(case["day"].as_i64().unwrap()), use_dt, acc),
         Some("format") => case_format(&Walker::at(case["day"].as_i64().unwrap()), use_dt, case["all_e"].as_bool().unwrap_or(false), acc),
         Some("set_doy_offset") => case_set_doy_offset(case["from_day"].as_i64().unwrap(), case["nod"].as_str().unwrap().parse().unwrap(), case["off"].as_i64().unwrap() as i32, case["n"].as_u64().unwrap() as u32, acc),
